@@ -5,6 +5,7 @@ false alarm).  Never run by a registered check.  See triage/README.md.
 
 usage: /venv/bin/python triage/repro.py <case>|all [--repo /repo]
 """
+import atexit
 import json
 import os
 import shutil
@@ -38,6 +39,7 @@ class _NoBar:
 
 _S.tqdm = _NoBar
 TMP = tempfile.mkdtemp(prefix="topsim-triage-")
+atexit.register(shutil.rmtree, TMP, ignore_errors=True)
 
 
 def _wf(path, nodes, edges):
@@ -318,10 +320,7 @@ def c05_greedy_same_machine():
 
 if __name__ == '__main__':
     want = [a for a in sys.argv[1:] if not a.startswith('--') and a != REPO]
-    try:
-        names = list(CASES) if (not want or want == ['all']) else want
-        for n in names:
-            print(f"=== {n}: {CASES[n].__doc__.strip().splitlines()[0]}")
-            CASES[n]()
-    finally:
-        shutil.rmtree(TMP, ignore_errors=True)
+    names = list(CASES) if (not want or want == ['all']) else want
+    for n in names:
+        print(f"=== {n}: {CASES[n].__doc__.strip().splitlines()[0]}")
+        CASES[n]()
